@@ -90,6 +90,10 @@ def run(prop, tier, seed, replay):
             mask = rng.choice([1, 2, 3, 4 | 1, 4 | 1 | 2, 1, 5])
             case = G.rand_corrfunc_parts(rng, mask=mask)
             case["kind"] = kind
+            if ci % 4 == 1:
+                # stratum: a patch with negative weights — pair counts, weight products and leave-one-out sums of either sign
+                G.negate_data_patch(case, rng.randrange(case["N"]))
+                ck.count("stratum=negative-weight-patch")
             if kind == "jk":
                 nc = case["parts"][rng.choice(sorted(case["parts"]))]
                 case["nc"] = nc
